@@ -143,11 +143,28 @@ def numkind(rng, v, kinds=("float", "float", "float", "int", "f64")):
         return {"$": "f64", "v": float(v)}
     if k == "simfloat":
         return {"$": "simfloat", "v": float(v)}
+    if k == "frac":          # numbers.Real, exact: fractions.Fraction
+        if v != v or v in (float("inf"), -float("inf")):
+            return {"$": "frac", "v": [1, 1]}
+        import fractions
+
+        f = fractions.Fraction(v).limit_denominator(64)
+        return {"$": "frac", "v": [f.numerator, f.denominator]}
+    if k == "bigint":        # Python ints no double represents exactly (beyond 2**53), rarely beyond int64 too
+        if v != v or v in (float("inf"), -float("inf")):
+            return 2 ** 53 + 1
+        kk = max(1, min(512, abs(int(v))))
+        big = (2 ** 53 + 1) * kk if rng.random() < 0.85 else 2 ** 64 + 2 * kk + 1
+        return -big if v < 0 else big
     return float(v)
 
 
 def lit_value(x):
     """Python number of an encoded numeric literal."""
     if isinstance(x, dict):
+        if x.get("$") == "frac":
+            return x["v"][0] / x["v"][1]
+        if x.get("$") == "dec":
+            return float(x["v"])
         return x["v"]
     return x
